@@ -33,7 +33,23 @@ EXPR_SNIPPETS = [
     "1 < 2 < 'a'", "1 and 2", "0 or 'a'", "not None", "P(1, True) == P(1, True)", "P(1, True) < P(1, True)",
 ]
 
+WRAPS = ["({e} if True else {e})", "({e} if {e} else {e})", "(w_ := {e})", "({e}, {e})[0]", "({e},)", "int({e})", "float({e})",
+         "bool({e})", "comptime({e})", "(-{e})", "(not {e})", "({e} + 1)", "({e} and {e})", "({e} or True)", "{e}[0]", "{e}.a",
+         "{e}()", "array({e})", "array({e}, {e})[0]", "[{e}]", "len({e})", "({e} < {e} < {e})", "abs({e})", "({e} == {e})",
+         "P({e}, True).a", "P(1, {e}).b", "({e} if {e} > 0 else 0)", "nat({e})", "{e}.copy()", "(lambda: {e})()", "({e} is None)",
+         "({e} // {e})", "({e} ** 2)", "({e} @ {e})", "range({e})", "some({e})", "some({e}).unwrap()", "py({e})", "(yield {e})",
+         "({e})[{e}]", "{e}[{e} if True else 0]", "measure({e})", "discard({e})"]
+
+STMT_WRAPS = ["if True:\n    BODY", "if False:\n    BODY", "while False:\n    BODY", "for i_ in range(2):\n    BODY",
+              "while True:\n    BODY\n    break", "def inner_w() -> None:\n    BODY\ninner_w()", "with dagger:\n    BODY",
+              "with control(qubit()):\n    BODY", "if True:\n    pass\nelse:\n    BODY", "for i_ in array(1, 2):\n    BODY",
+              "try:\n    BODY\nfinally:\n    pass", "if qq_undefined:\n    BODY"]
+
 STMT_SNIPPETS = [
+    "xs_ = array(1, 2)\nxs_[0 if True else 1] = 1",
+    "xs_ = array(1, 2)\nxs_[0 if xs_[0] > 0 else 1] += 1",
+    "xs_ = array(1, 2)\nxs_[(w_ := 0)] = 1",
+    "xs_ = array(1, 2)\nxs_[0 and 1] = 1",
     "q_leak = qubit()",
     "q2 = qubit()\ndiscard(q2)\ndiscard(q2)",
     "q3 = qubit()\nq4 = q3\nh(q3)\ndiscard(q4)",
@@ -171,7 +187,7 @@ def apply_one(draw, tree):
         return "none"
     fn = fns[draw(st.integers(0, len(fns) - 1))]
     kind = draw(st.sampled_from([
-        "annotation", "annotation", "drop_stmt", "dup_stmt", "rename", "rename", "call_arity", "insert_stmt",
+        "annotation", "wrap_expr", "wrap_expr", "wrap_expr", "wrap_stmt", "drop_stmt", "dup_stmt", "rename", "rename", "call_arity", "insert_stmt",
         "insert_stmt", "insert_stmt", "replace_expr", "replace_expr", "replace_expr", "wrong_return", "unreachable",
         "swap_stmts", "const", "cond_nonbool", "binop_operand", "shadow_param", "compare_op", "sig_arity",
         "unpack_mismatch", "early_return", "struct_field", "call_to_method"]))
@@ -212,6 +228,44 @@ def apply_one(draw, tree):
         elif kind == "early_return":
             b.insert(i, ast.Return(value=_parse_expr(draw(st.sampled_from(["1", "True", "1.5", "(1, 2)", "None", "P(1, True)"])))))
         return kind
+    if kind == "wrap_expr":
+        parents = []
+        for p in nodes:
+            for fld, val in ast.iter_fields(p):
+                if fld in ("annotation", "returns", "decorator_list", "targets", "target", "args") and not isinstance(p, ast.Call):
+                    continue
+                if isinstance(val, ast.expr) and not isinstance(getattr(val, "ctx", None), (ast.Store, ast.Del)):
+                    parents.append((p, fld, None))
+                elif isinstance(val, list):
+                    for idx, v in enumerate(val):
+                        if isinstance(v, ast.expr) and not isinstance(getattr(v, "ctx", None), (ast.Store, ast.Del)):
+                            parents.append((p, fld, idx))
+        tgt = pick(parents)
+        w = draw(st.sampled_from(WRAPS))
+        if tgt is not None:
+            p, fld, idx = tgt
+            old = getattr(p, fld) if idx is None else getattr(p, fld)[idx]
+            try:
+                new = _parse_expr(w.replace("{e}", "(" + ast.unparse(old) + ")"))
+            except (SyntaxError, ValueError):
+                return "none"
+            if idx is None:
+                setattr(p, fld, new)
+            else:
+                getattr(p, fld)[idx] = new
+        return kind + ":" + w
+    if kind == "wrap_stmt":
+        bodies = _bodies(fn)
+        b = pick(bodies)
+        i = draw(st.integers(0, len(b) - 1))
+        w = draw(st.sampled_from(STMT_WRAPS))
+        inner = ast.unparse(b[i]).replace("\n", "\n    ")
+        try:
+            new = _parse_stmts(w.replace("BODY", inner))
+        except SyntaxError:
+            return "none"
+        b[i:i + 1] = new
+        return kind + ":" + w.split("\n")[0]
     if kind == "rename":
         names = [n for n in nodes if isinstance(n, ast.Name) and isinstance(n.ctx, ast.Load)]
         n = pick(names)
